@@ -132,9 +132,13 @@ class DB:
         self.read_utxo_state()
 
         # Then history DB
-        self.state.flush_count = self.history.open_db(self.db_class, for_sync,
-                                                      self.state.flush_count,
-                                                      compacting)
+        flush_count = self.history.open_db(self.db_class, for_sync, self.state.flush_count,
+                                           compacting)
+        if flush_count != self.state.flush_count:
+            # The compaction tool died after its last batch, before it could copy the new
+            # flush count here.  Do that now; if it were only held in memory a later unclean
+            # shutdown would go unnoticed, the history DB's count still being the smaller.
+            self.set_flush_count(flush_count)
         # The history compaction tool is run with its own environment ("just DB_DIRECTORY
         # and COIN"); its REORG_LIMIT must not decide which undo information the server keeps
         if not compacting:
